@@ -134,35 +134,36 @@ theorem eq_iff (a b : Asset) (ha : WF a) (hb : WF b) (na : Normal a) (nb : Norma
       simp [qty] at this hq
       simp [← this, hq]
 
-/-- `__le__` is the component-wise order when the left operand stores only positive and the right only
-non-negative quantities (the region in which pycardano uses it) -/
-theorem le_iff_partial (a b : Asset) (ha : WF a) (hb : WF b)
-    (pa : ∀ p ∈ a, 0 < p.2) (pb : ∀ p ∈ b, 0 ≤ p.2) :
-    le a b = true ↔ ∀ n, qty a n ≤ qty b n := by
-  unfold le
-  simp only [List.all_eq_true, Bool.and_eq_true, decide_eq_true_eq]
-  have nonneg_b : ∀ n, 0 ≤ qty b n := by
-    intro n
-    cases hh : has b n with
-    | false => simp [qty, has_false_getD _ _ _ hh]
-    | true => exact pb (n, getD b n 0) ((mem_iff_getD b n _ 0 hb).2 ⟨hh, rfl⟩)
+/-- `__le__` is the component-wise order (absent = 0) — for all association lists, repeated keys, stored zeros
+and negative quantities included -/
+theorem le_iff (a b : Asset) : le a b = true ↔ ∀ n, qty a n ≤ qty b n := by
+  unfold le qty
+  simp only [List.all_eq_true, List.mem_append, Bool.not_eq_eq_eq_not, Bool.not_true, decide_eq_false_iff_not,
+    Int.not_lt, gt_iff_lt]
   constructor
-  · intro hall n
-    cases hh : has a n with
-    | true =>
-      have hm : (n, getD a n 0) ∈ a := (mem_iff_getD a n _ 0 ha).2 ⟨hh, rfl⟩
-      exact (hall _ hm).2
-    | false =>
-      simp only [qty, has_false_getD _ _ _ hh]
-      exact nonneg_b n
-  · intro h p hp
-    obtain ⟨k, v⟩ := p
-    have hq : qty a k = v := ((mem_iff_getD a k v 0 ha).1 hp).2
-    have hv : 0 < v := pa _ hp
-    have hk := h k
-    rw [hq] at hk
-    refine ⟨has_of_qty_ne b k (by omega), ?_⟩
-    simpa [qty] using hk
+  · intro h n
+    by_cases hk : n ∈ keys a ∨ n ∈ keys b
+    · exact h n hk
+    · have h1 : has a n = false := by
+        cases hh : has a n with
+        | false => rfl
+        | true => exact absurd (Or.inl ((has_iff_mem a n).1 hh)) hk
+      have h2 : has b n = false := by
+        cases hh : has b n with
+        | false => rfl
+        | true => exact absurd (Or.inr ((has_iff_mem b n).1 hh)) hk
+      rw [has_false_getD _ _ _ h1, has_false_getD _ _ _ h2]
+      exact Int.le_refl 0
+  · intro h n _; exact h n
+
+/-- the order (and multiplicity) in which the union of the key sets is enumerated is irrelevant: what Python's
+`set(self) | set(other)` iterates over, in whatever order, gives the answer of the model -/
+theorem le_enumeration (a b : Asset) (ks : List Bytes) (h : ∀ k, k ∈ ks ↔ k ∈ keys a ∨ k ∈ keys b) :
+    ks.all (fun n => !decide (getD a n 0 > getD b n 0)) = le a b := by
+  unfold le
+  rw [Bool.eq_iff_iff]
+  simp only [List.all_eq_true, List.mem_append]
+  exact ⟨fun hh n hn => hh n ((h n).2 hn), fun hh n hn => hh n ((h n).1 hn)⟩
 
 end Asset
 
@@ -361,57 +362,35 @@ theorem eq_iff (a b : MultiAsset) (ha : WF a) (hb : WF b) (na : Normal a) (nb : 
       simp only [qty, hk.2] at this
       exact this
 
-/-- all stored quantities positive, no empty policy -/
-def Pos (m : MultiAsset) : Prop := ∀ p ∈ m, p.2 ≠ [] ∧ ∀ q ∈ p.2, 0 < q.2
 /-- all stored quantities non-negative -/
 def NonNeg (m : MultiAsset) : Prop := ∀ p ∈ m, ∀ q ∈ p.2, 0 ≤ q.2
 
-theorem le_iff_partial (a b : MultiAsset) (ha : WF a) (hb : WF b) (pa : Pos a) (pb : NonNeg b) :
-    le a b = true ↔ ∀ p n, qty a p n ≤ qty b p n := by
+theorem qty_of_not_mem (m : MultiAsset) (p n : Bytes) (h : p ∉ keys m) : qty m p n = 0 := by
+  apply qty_of_not_has
+  cases hh : has m p with
+  | false => rfl
+  | true => exact absurd ((has_iff_mem m p).1 hh) h
+
+/-- `__le__` is the component-wise order (absent = 0) — for all association lists, repeated keys, empty policies,
+stored zeros and negative quantities included -/
+theorem le_iff (a b : MultiAsset) : le a b = true ↔ ∀ p n, qty a p n ≤ qty b p n := by
   unfold le
-  simp only [List.all_eq_true, Bool.and_eq_true]
-  have nonneg_b : ∀ p n, 0 ≤ qty b p n := by
-    intro p n
-    cases hh : has b p with
-    | false => simp [qty_of_not_has _ _ _ hh]
-    | true =>
-      have hm := mem_getD b p hb hh
-      cases hn : has (getD b p []) n with
-      | false => simp [qty, Asset.qty, has_false_getD _ _ _ hn]
-      | true =>
-        exact pb _ hm (n, getD (getD b p []) n 0) ((mem_iff_getD _ n _ 0 (hb.2 _ hm)).2 ⟨hn, rfl⟩)
+  simp only [List.all_eq_true, List.mem_append, Asset.le_iff]
   constructor
-  · intro hall p n
-    cases hh : has a p with
-    | true =>
-      have hm := mem_getD a p ha hh
-      have h2 := hall _ hm
-      have hbm := mem_getD b p hb h2.1
-      exact (Asset.le_iff_partial _ _ (ha.2 _ hm) (hb.2 _ hbm) (pa _ hm).2 (pb _ hbm)).1 h2.2 n
-    | false =>
-      rw [qty_of_not_has _ _ _ hh]; exact nonneg_b p n
-  · intro h q hq
-    obtain ⟨k, x⟩ := q
-    have hk := getD_of_mem a k x ha hq
-    have hpos := pa _ hq
-    simp only at hpos
-    have hbk : has b k = true := by
-      cases hx : x with
-      | nil => exact absurd hx hpos.1
-      | cons q0 r =>
-        have h1 : qty a k q0.1 = q0.2 := by simp [qty, hk.2, hx, Asset.qty, getD]
-        have h2 : 0 < q0.2 := hpos.2 q0 (by rw [hx]; simp)
-        have h3 := h k q0.1
-        cases hf : has b k with
-        | true => rfl
-        | false => rw [qty_of_not_has _ _ _ hf] at h3; omega
-    refine ⟨hbk, ?_⟩
-    have hbm := mem_getD b k hb hbk
-    apply (Asset.le_iff_partial _ _ (ha.2 _ hq) (hb.2 _ hbm) hpos.2 (pb _ hbm)).2
-    intro n
-    have := h k n
-    simp only [qty, hk.2] at this
-    exact this
+  · intro h p n
+    by_cases hk : p ∈ keys a ∨ p ∈ keys b
+    · exact h p hk n
+    · rw [qty_of_not_mem a p n (fun hc => hk (Or.inl hc)), qty_of_not_mem b p n (fun hc => hk (Or.inr hc))]
+      exact Int.le_refl 0
+  · intro h p _ n; exact h p n
+
+/-- the enumeration of the union of the policy sets is irrelevant (see `Asset.le_enumeration`) -/
+theorem le_enumeration (a b : MultiAsset) (ks : List Bytes) (h : ∀ k, k ∈ ks ↔ k ∈ keys a ∨ k ∈ keys b) :
+    ks.all (fun p => Asset.le (getD a p []) (getD b p [])) = le a b := by
+  unfold le
+  rw [Bool.eq_iff_iff]
+  simp only [List.all_eq_true, List.mem_append]
+  exact ⟨fun hh n hn => hh n ((h n).2 hn), fun hh n hn => hh n ((h n).1 hn)⟩
 
 end MultiAsset
 end Pyc
@@ -433,6 +412,25 @@ theorem eq_iff (a b : Value) (ha : WF a) (hb : WF b) (na : Normal a) (nb : Norma
   unfold eq Same qty
   simp only [Bool.and_eq_true, beq_iff_eq]
   rw [MultiAsset.eq_iff _ _ ha hb na nb]
+
+/-- `<=` is the component-wise order on contents, for all operands -/
+theorem le_iff (a b : Value) : le a b = true ↔ a.coin ≤ b.coin ∧ ∀ p n, qty a p n ≤ qty b p n := by
+  unfold le qty
+  simp only [Bool.and_eq_true, decide_eq_true_eq]
+  rw [MultiAsset.le_iff]
+
+/-- `<` is `<=` and not `==`, for all operands (`Value.__lt__` is that composition) -/
+theorem lt_iff_le_ne (a b : Value) :
+    lt a b = true ↔ (a.coin ≤ b.coin ∧ ∀ p n, qty a p n ≤ qty b p n) ∧ eq a b = false := by
+  unfold lt
+  simp only [Bool.and_eq_true, Bool.not_eq_true']
+  rw [le_iff]
+
+/-- `<` is the strict component-wise order on normal values (where `==` is component-wise equality) -/
+theorem lt_iff (a b : Value) (ha : WF a) (hb : WF b) (na : Normal a) (nb : Normal b) :
+    lt a b = true ↔ (a.coin ≤ b.coin ∧ ∀ p n, qty a p n ≤ qty b p n) ∧ ¬ Same a b := by
+  rw [lt_iff_le_ne, ← eq_iff a b ha hb na nb]
+  simp
 
 end Value
 end Pyc
@@ -574,4 +572,123 @@ theorem filter_pos_spec (m : MultiAsset) (hm : WF m) (p n : Bytes) :
   · simp [hq]
 
 end MultiAsset
+end Pyc
+
+/-! ## the repair of KF-C05-le-negative changes no answer on the operands pycardano produces
+
+`leOld` is `__le__` as it was before the repair (keys of the left operand only; a key missing on the right is
+"not <=").  On well-formed operands of which the left stores only positive quantities (and no empty policy) and the
+right only non-negative ones — every value of the ledger, every request and selected amount of the selectors on valid
+inputs — the repaired `le` returns exactly what `leOld` returned. -/
+
+namespace Pyc
+namespace Asset
+open Dict
+
+/-- `Asset.__le__` before the repair -/
+def leOld (a b : Asset) : Bool := a.all (fun p => has b p.1 && decide (p.2 ≤ getD b p.1 0))
+
+/-- the key-directed `__le__` was the component-wise order when the left operand stores only positive and the right
+only non-negative quantities (the region in which pycardano uses it) -/
+theorem leOld_iff (a b : Asset) (ha : WF a) (hb : WF b)
+    (pa : ∀ p ∈ a, 0 < p.2) (pb : ∀ p ∈ b, 0 ≤ p.2) :
+    leOld a b = true ↔ ∀ n, qty a n ≤ qty b n := by
+  unfold leOld
+  simp only [List.all_eq_true, Bool.and_eq_true, decide_eq_true_eq]
+  have nonneg_b : ∀ n, 0 ≤ qty b n := by
+    intro n
+    cases hh : has b n with
+    | false => simp [qty, has_false_getD _ _ _ hh]
+    | true => exact pb (n, getD b n 0) ((mem_iff_getD b n _ 0 hb).2 ⟨hh, rfl⟩)
+  constructor
+  · intro hall n
+    cases hh : has a n with
+    | true =>
+      have hm : (n, getD a n 0) ∈ a := (mem_iff_getD a n _ 0 ha).2 ⟨hh, rfl⟩
+      exact (hall _ hm).2
+    | false =>
+      simp only [qty, has_false_getD _ _ _ hh]
+      exact nonneg_b n
+  · intro h p hp
+    obtain ⟨k, v⟩ := p
+    have hq : qty a k = v := ((mem_iff_getD a k v 0 ha).1 hp).2
+    have hv : 0 < v := pa _ hp
+    have hk := h k
+    rw [hq] at hk
+    refine ⟨has_of_qty_ne b k (by omega), ?_⟩
+    simpa [qty] using hk
+
+end Asset
+
+namespace MultiAsset
+open Dict
+
+/-- `MultiAsset.__le__` before the repair -/
+def leOld (a b : MultiAsset) : Bool := a.all (fun p => has b p.1 && Asset.leOld p.2 (getD b p.1 []))
+
+/-- all stored quantities positive, no empty policy -/
+def Pos (m : MultiAsset) : Prop := ∀ p ∈ m, p.2 ≠ [] ∧ ∀ q ∈ p.2, 0 < q.2
+
+theorem leOld_iff (a b : MultiAsset) (ha : WF a) (hb : WF b) (pa : Pos a) (pb : NonNeg b) :
+    leOld a b = true ↔ ∀ p n, qty a p n ≤ qty b p n := by
+  unfold leOld
+  simp only [List.all_eq_true, Bool.and_eq_true]
+  have nonneg_b : ∀ p n, 0 ≤ qty b p n := by
+    intro p n
+    cases hh : has b p with
+    | false => simp [qty_of_not_has _ _ _ hh]
+    | true =>
+      have hm := mem_getD b p hb hh
+      cases hn : has (getD b p []) n with
+      | false => simp [qty, Asset.qty, has_false_getD _ _ _ hn]
+      | true =>
+        exact pb _ hm (n, getD (getD b p []) n 0) ((mem_iff_getD _ n _ 0 (hb.2 _ hm)).2 ⟨hn, rfl⟩)
+  constructor
+  · intro hall p n
+    cases hh : has a p with
+    | true =>
+      have hm := mem_getD a p ha hh
+      have h2 := hall _ hm
+      have hbm := mem_getD b p hb h2.1
+      exact (Asset.leOld_iff _ _ (ha.2 _ hm) (hb.2 _ hbm) (pa _ hm).2 (pb _ hbm)).1 h2.2 n
+    | false =>
+      rw [qty_of_not_has _ _ _ hh]; exact nonneg_b p n
+  · intro h q hq
+    obtain ⟨k, x⟩ := q
+    have hk := getD_of_mem a k x ha hq
+    have hpos := pa _ hq
+    simp only at hpos
+    have hbk : has b k = true := by
+      cases hx : x with
+      | nil => exact absurd hx hpos.1
+      | cons q0 r =>
+        have h1 : qty a k q0.1 = q0.2 := by simp [qty, hk.2, hx, Asset.qty, getD]
+        have h2 : 0 < q0.2 := hpos.2 q0 (by rw [hx]; simp)
+        have h3 := h k q0.1
+        cases hf : has b k with
+        | true => rfl
+        | false => rw [qty_of_not_has _ _ _ hf] at h3; omega
+    refine ⟨hbk, ?_⟩
+    have hbm := mem_getD b k hb hbk
+    apply (Asset.leOld_iff _ _ (ha.2 _ hq) (hb.2 _ hbm) hpos.2 (pb _ hbm)).2
+    intro n
+    have := h k n
+    simp only [qty, hk.2] at this
+    exact this
+
+end MultiAsset
+
+namespace Value
+
+/-- `Value.__le__` before the repair -/
+def leOld (a b : Value) : Bool := decide (a.coin ≤ b.coin) && MultiAsset.leOld a.ma b.ma
+
+theorem le_eq_leOld (a b : Value) (ha : WF a) (hb : WF b) (pa : MultiAsset.Pos a.ma) (pb : MultiAsset.NonNeg b.ma) :
+    le a b = leOld a b := by
+  rw [Bool.eq_iff_iff, le_iff]
+  unfold leOld qty
+  simp only [Bool.and_eq_true, decide_eq_true_eq]
+  rw [MultiAsset.leOld_iff _ _ ha hb pa pb]
+
+end Value
 end Pyc
